@@ -9,7 +9,7 @@ m={"version":1,
 "setup_cmd":"cd /verif/tool && GOFLAGS=-mod=mod GOPROXY=off GOSUMDB=off GOTOOLCHAIN=local go build -o /verif/bin/dvc ./cmd/dvc",
 "hooks":{"guard":"verif","enable":"contract files verif_contracts.go are comment-only and carry //go:build verif; dvc loads /repo with -tags verif","baseline_off_cmd":"cd /repo && go test -vet=off -count=1 -timeout 25m ./...","source_commits":hooks,"add_only":True},
 "engines":[{"name":"dvc","path":"/verif/tool","serves_properties":sorted(claimed.keys()),"kind_free_text":"contract-based deductive verifier for Go written for this task: go/ssa (naive form) of the current /repo tree + //@ contracts -> weakest-precondition obligations -> z3 5.1 / z3 4.8 / cvc5 raced per obligation"}],
-"checks":[],"notes":"see DESIGN.md; known findings in known_findings.jsonl; seeded changes in seeded/","not_applicable":[]}
+"checks":[],"notes":"see DESIGN.md; known findings in known_findings.jsonl; seeded changes in seeded/ (seeded/replay_sweep.txt: which seeds get a failing input on the real code); a violation is replayed on the real code by the check itself (DESIGN.md section 3): when that succeeds the VIOLATION line carries no suffix and the replay file has failing_input and replay_files (dvc replay <file> re-runs it), otherwise the line ends in no-failing-input-found","not_applicable":[]}
 for p in props:
     i=p['id']
     if i in claimed:
